@@ -4,6 +4,7 @@ import Ach.Generated.Layouts
 import Ach.Model.Mask
 import Ach.Model.CreateDriver
 import Ach.Model.ValidateDriver
+import Ach.Model.Writer
 import Ach.Model.PipelineDriver
 import Ach.Model.ServerDriver
 import Ach.Model.RepoDriver
@@ -21,6 +22,18 @@ def mkCtx : Ctx :=
   { layouts := (parseFacts.zip renderFacts).map fun (p, r) => (p.recName, compile p r) }
 
 def intArg (s : String) : Option Int := s.toInt?
+
+/-- `write <shape>`: shape = batches separated by `;`, each a `,`-separated list of addenda counts (`-` = no entries) -/
+def writeShape (shape : String) : String :=
+  let parseBatch (b : String) : Option Ach.Writer.WBatch :=
+    if b = "-" then some ⟨[]⟩ else ((b.splitOn ",").mapM (fun (t : String) => t.toNat?.map (fun n => (⟨n⟩ : Ach.Writer.WEntry)))).map (⟨·⟩)
+  let bs := if shape = "-" then some [] else (shape.splitOn ";").mapM parseBatch
+  match bs with
+  | none => "bad-op"
+  | some bs =>
+    String.ofList ((Ach.Writer.write ⟨bs⟩).map (fun k => match k with
+      | .fileHeader => '1' | .batchHeader => '5' | .entry => '6' | .addenda => '7'
+      | .batchControl => '8' | .fileControl => '9' | .filler => 'F'))
 
 def step (cx : Ctx) (line : String) : String :=
   match (line.trimAscii.toString.splitOn " ") with
@@ -68,6 +81,7 @@ def step (cx : Ctx) (line : String) : String :=
         | none => "nomodel")
      | _ => Ach.CreateDriver.run args)
   | "validate" :: args => Ach.ValidateDriver.run args
+  | ["write", shape] => writeShape shape
   | ["mask", "number", h] =>
     match hexToStr h with
     | some s => bytesToHex (ByteArray.mk (maskNumber s).toArray)
